@@ -255,3 +255,6 @@ struct op_entry ops_template[] = {
    { "ss.new", ss_new }, { "ss.list", ss_list }, { "ss.seti", ss_seti }, { "ss.setfactors", ss_setfactors }, { "ss.expand", ss_expand },
    { "ss.speclayout", ss_speclayout }, { "ds.invalid", ds_invalid },
    { NULL, NULL } };
+
+/* table sets by name, for other op files */
+BUFR_Tables *bvp_find_set(const char *name) { return find_set(name); }
